@@ -1,8 +1,9 @@
 (* C10 — Compiled d-DNNF is a valid, equivalent circuit.
    Only statements; every proof is `exact <lemma>`. *)
-From Coq Require Import List Bool Arith.
-From PL.C10 Require Import ModelCircuit SpecDDNNF ProofsTree ProofsDag.
+From Coq Require Import List Bool Arith ZArith QArith Qcanon.
+From PL.C10 Require Import ModelCircuit SpecDDNNF ModelOracle ProofsTree ProofsDag ProofsWMC ProofsInstances.
 Import ListNotations.
+Local Open Scope nat_scope.
 
 (* Verified validator (no size bound): whenever the checker accepts a circuit C (in ProbLog's
    DDNNF node layout) for a CNF f over variables 1..n, C is a well-formed DAG that is decomposable,
@@ -20,6 +21,53 @@ Theorem C10_dag_is_tree : forall (A : Type) (g : alg A) C, root_val g C = fold g
 Proof. exact @root_val_fold. Qed.
 Print Assumptions C10_dag_is_tree.
 
+(* eval_is_wmc -- what SimpleDDNNFEvaluator relies on.  For EVERY commutative semiring S (abstract
+   record + laws), every literal weighting w and every decomposable, deterministic, smooth circuit,
+   one bottom-up pass (products at AND, sums at OR) equals the weighted model count: the sum, over all
+   assignments bs to the circuit's variables (taken in the order of any duplicate-free list U that
+   contains them), of [C true under bs] * product of the weights of the literals of bs.
+   `wmc_sum` is that explicit sum (ModelCircuit.v); `a` gives the (irrelevant) values of other variables. *)
+Theorem C10_eval_is_wmc : forall (S : sr_ops), sr_laws S -> forall (w : nat -> bool -> S) U C,
+  NoDup U -> incl (tvars (root_tree C)) U ->
+  decomposable C -> deterministic C -> smooth C ->
+  forall a, c_eval S w C =
+            wmc_sum S w (filter (memb (tvars (root_tree C))) U) (fun a => c_evalb a C) a.
+Proof. exact eval_is_wmc_sum_dag. Qed.
+Print Assumptions C10_eval_is_wmc.
+
+(* same statement on tree-shaped circuits, Shannon-expansion form of the count *)
+Theorem C10_eval_is_wmc_tree : forall (S : sr_ops), sr_laws S -> forall (w : nat -> bool -> S) U,
+  NoDup U -> forall t, incl (tvars t) U -> Decomposable t -> Deterministic t -> Smooth t ->
+  forall a, eval S w t = wmc S w (filter (memb (tvars t)) U) (fun a => evalb a t) a.
+Proof. exact eval_is_wmc_tree. Qed.
+Print Assumptions C10_eval_is_wmc_tree.
+
+(* the recursive count IS the sum over models of the product of literal weights *)
+Theorem C10_wmc_is_sum : forall (S : sr_ops), sr_laws S -> forall (w : nat -> bool -> S) vs phi a,
+  wmc S w vs phi a = wmc_sum S w vs phi a.
+Proof. exact wmc_is_sum. Qed.
+Print Assumptions C10_wmc_is_sum.
+
+(* checker + evaluation: an accepted circuit evaluates, in every commutative semiring and for
+   every weighting, to the weighted model count of the CNF over all its variables 1..n *)
+Theorem C10_checked_eval_is_wmc_cnf : forall (S : sr_ops), sr_laws S -> forall (w : nat -> bool -> S) n C f,
+  check_ddnnf n C f = true -> c_eval S w C = wmc_cnf S w n f.
+Proof. exact checked_eval_is_wmc_cnf. Qed.
+Print Assumptions C10_checked_eval_is_wmc_cnf.
+
+(* _load_nnf's rule for names whose literal has no `L` line: in a smooth circuit equivalent to the
+   CNF that mentions the variable, a literal that does not occur is false in every model, so the
+   key None (FALSE) the name receives denotes the same thing. *)
+Theorem C10_absent_literal : forall n C f v b, check_ddnnf n C f = true -> 1 <= v <= n ->
+  c_occurs v b C = false -> forall a, sat a f = true -> a v = negb b.
+Proof. exact absent_literal. Qed.
+Print Assumptions C10_absent_literal.
+
+(* the laws are satisfiable: exact rationals (Probability), Booleans, naturals (model counting) *)
+Theorem C10_semiring_instances : sr_laws QcOps /\ sr_laws BoolOps /\ sr_laws NatOps.
+Proof. exact (conj QcOps_laws (conj BoolOps_laws NatOps_laws)). Qed.
+Print Assumptions C10_semiring_instances.
+
 (* non-vacuity: the circuit dsharp + _load_nnf return for
    `0.3::a. 0.4::b. 0.5::c. q :- b, c. query(a). query(q).`   (CNF: 4 -2 -3 / -4 2 / -4 3) *)
 Definition ex_circuit : circuit :=
@@ -35,3 +83,8 @@ Example C10_checker_rejects_nondeterministic :
 Proof. vm_compute. reflexivity. Qed.
 Example C10_checker_rejects_lost_sign : check_ddnnf 1 [Atom 1] [[(1, false)]] = false.
 Proof. vm_compute. reflexivity. Qed.
+(* the example evaluates to its weighted model count: P(q) = 0.4*0.5 with q's negative weight zeroed *)
+Example C10_example_eval :
+  o_eval ex_circuit [(mkq 3%Z 10%positive, mkq 7%Z 10%positive); (mkq 4%Z 10%positive, mkq 6%Z 10%positive); (mkq 1%Z 2%positive, mkq 1%Z 2%positive); (mkq 1%Z 1%positive, mkq 0%Z 1%positive)] = mkq 1%Z 5%positive
+  /\ o_wmc 4 ex_cnf [(mkq 3%Z 10%positive, mkq 7%Z 10%positive); (mkq 4%Z 10%positive, mkq 6%Z 10%positive); (mkq 1%Z 2%positive, mkq 1%Z 2%positive); (mkq 1%Z 1%positive, mkq 0%Z 1%positive)] = mkq 1%Z 5%positive.
+Proof. split; apply Qcanon.Qc_is_canon; vm_compute; reflexivity. Qed.
